@@ -20,11 +20,13 @@ type fieldNeeds struct {
 	assumed    map[*ssa.Function]map[string]bool // fn -> field keys assumed non-nil on its receiver object
 	resultNeed map[*ssa.Function]map[string]bool // fn returns closures that need the field of fn's receiver
 	names      map[string]string
-	failed     map[string]string // construct -> reason (unresolvable shapes found while propagating)
+	failed     map[string]string                    // construct -> reason (unresolvable shapes found while propagating)
+	guarded    map[*ssa.Function]map[string]FlagInv // derefs that sit behind a test of a flag of the same object
+	useInv     bool
 }
 
 func newFieldNeeds() *fieldNeeds {
-	return &fieldNeeds{assumed: map[*ssa.Function]map[string]bool{}, resultNeed: map[*ssa.Function]map[string]bool{}, names: map[string]string{}, failed: map[string]string{}}
+	return &fieldNeeds{assumed: map[*ssa.Function]map[string]bool{}, resultNeed: map[*ssa.Function]map[string]bool{}, names: map[string]string{}, failed: map[string]string{}, guarded: map[*ssa.Function]map[string]FlagInv{}}
 }
 
 func fieldNeedKey(fa *ssa.FieldAddr) string {
@@ -65,6 +67,31 @@ func recvBase(p *Prog, fn *ssa.Function, v ssa.Value) (string, bool) {
 		if fv, ok := ld.X.(*ssa.FreeVar); ok {
 			if _, ok := capturedRecv(p, fn, fv); ok {
 				return "captured", true
+			}
+		}
+		// the function's own variable cell holding its receiver (it is a cell
+		// because a closure captures it)
+		if al, ok := ld.X.(*ssa.Alloc); ok {
+			n := 0
+			var stored ssa.Value
+			okc := true
+			for _, r := range *al.Referrers() {
+				switch x := r.(type) {
+				case *ssa.Store:
+					if x.Addr != ssa.Value(al) {
+						okc = false
+					}
+					n++
+					stored = x.Val
+				case *ssa.UnOp, *ssa.DebugRef, *ssa.MakeClosure:
+				default:
+					okc = false
+				}
+			}
+			if okc && n == 1 {
+				if k, ok := recvBase(p, fn, stored); ok {
+					return k, true
+				}
 			}
 		}
 	}
@@ -114,8 +141,11 @@ func capturedRecv(p *Prog, fn *ssa.Function, fv *ssa.FreeVar) (*ssa.Function, bo
 }
 
 // note records that fn dereferences subj = load(&R.f) unchecked, R being its
-// receiver object.  Returns true if this is new.
-func (fnn *fieldNeeds) note(p *Prog, fn *ssa.Function, subj ssa.Value) bool {
+// receiver object.  Returns true if this is new.  When the dereference sits
+// behind a test of a flag of the same object (and invariants are enabled) it
+// is recorded as guarded: it then rests on the type's representation invariant
+// instead of on the callers.
+func (fnn *fieldNeeds) note(p *Prog, pr *Prover, fn *ssa.Function, at ssa.Instruction, subj ssa.Value) bool {
 	ld, ok := subj.(*ssa.UnOp)
 	if !ok || ld.Op != token.MUL {
 		return false
@@ -127,7 +157,23 @@ func (fnn *fieldNeeds) note(p *Prog, fn *ssa.Function, subj ssa.Value) bool {
 	if _, ok := recvBase(p, fn, fa.X); !ok {
 		return false
 	}
-	return fnn.add(fn, fieldNeedKey(fa), fieldNeedName(fa))
+	k := fieldNeedKey(fa)
+	if fnn.useInv {
+		if g, mask, ok := guardOf(pr, at.Block(), fa.X); ok {
+			if nt, ok := fa.X.Type().Underlying().(*types.Pointer).Elem().(*types.Named); ok {
+				if fnn.guarded[fn] == nil {
+					fnn.guarded[fn] = map[string]FlagInv{}
+				}
+				if _, had := fnn.guarded[fn][k]; had {
+					return false
+				}
+				fnn.guarded[fn][k] = FlagInv{T: nt, G: g, Mask: mask, F: fa.Field}
+				fnn.names[k] = fieldNeedName(fa)
+				return true
+			}
+		}
+	}
+	return fnn.add(fn, k, fieldNeedName(fa))
 }
 
 func (fnn *fieldNeeds) add(fn *ssa.Function, k, name string) bool {
@@ -294,7 +340,16 @@ func (fnn *fieldNeeds) sitesFor(p *Prog, reach map[*ssa.Function]bool, F *ssa.Fu
 					case *ssa.DebugRef:
 					case ssa.CallInstruction:
 						if x.Common().Value == ssa.Value(mc) {
-							inherit = append(inherit, P) // called inside P: P must guarantee it (checked at P's own sites or locally)
+							// called inside P: P must guarantee it at this very call
+							var A ssa.Value
+							if P.Signature.Recv() != nil && len(P.Params) > 0 {
+								A = P.Params[0]
+							}
+							if A != nil {
+								sites = append(sites, needSite{fn: P, at: x.(ssa.Instruction), A: A, k: k, what: "closure " + qname(F) + " called here"})
+							} else {
+								inherit = append(inherit, P)
+							}
 							continue
 						}
 						bad = append(bad, fmt.Sprintf("closure %s is passed on at %s", qname(F), posOf(p, r)))
@@ -407,6 +462,22 @@ func (fnn *fieldNeeds) propagate(p *Prog, reach map[*ssa.Function]bool, cfg safe
 			if provableFieldNonNil(pr, s.at, s.A, s.k) {
 				continue
 			}
+			if fnn.useInv {
+				if g, mask, ok := guardOf(pr, s.at.Block(), s.A); ok {
+					if nt, ok := s.A.Type().Underlying().(*types.Pointer).Elem().(*types.Named); ok {
+						if fnn.guarded[s.fn] == nil {
+							fnn.guarded[s.fn] = map[string]FlagInv{}
+						}
+						if _, had := fnn.guarded[s.fn][s.k]; !had {
+							var fidx int
+							fmt.Sscanf(s.k[strings.LastIndex(s.k, ".")+1:], "%d", &fidx)
+							fnn.guarded[s.fn][s.k] = FlagInv{T: nt, G: g, Mask: mask, F: fidx}
+							changed = true
+						}
+						continue
+					}
+				}
+			}
 			// not provable here: may the enclosing function pass the duty up?
 			if s.call == nil {
 				if _, ok := recvBase(p, s.fn, s.A); ok && closedCallSites(s.fn) {
@@ -421,7 +492,38 @@ func (fnn *fieldNeeds) propagate(p *Prog, reach map[*ssa.Function]bool, cfg safe
 }
 
 // resolve emits one obligation per place where a need must hold.
+func (fnn *fieldNeeds) invariants() []FlagInv {
+	seen := map[string]bool{}
+	var out []FlagInv
+	for _, m := range fnn.guarded {
+		for _, inv := range m {
+			if !seen[inv.key()] {
+				seen[inv.key()] = true
+				out = append(out, inv)
+			}
+		}
+	}
+	sort.Slice(out, func(i, j int) bool { return out[i].key() < out[j].key() })
+	return out
+}
+
 func (fnn *fieldNeeds) resolve(p *Prog, c *Check, cfg safetyCfg, reach map[*ssa.Function]bool) {
+	// dereferences behind a flag test rest on the representation invariant
+	var gfns []*ssa.Function
+	for fn := range fnn.guarded {
+		gfns = append(gfns, fn)
+	}
+	sort.Slice(gfns, func(i, j int) bool { return qname(gfns[i]) < qname(gfns[j]) })
+	for _, fn := range gfns {
+		for k, inv := range fnn.guarded[fn] {
+			cons := fmt.Sprintf("%s dereferences %s behind the flag test", qname(fn), fnn.names[k])
+			if p.checkFlagInv(nil, "", inv) {
+				c.OK(cfg.rule, cons, p.Pos(fn.Pos()), "non-nil by the representation invariant "+inv.String()+" (proven over all writers); no write to either field on the read-only path")
+			} else {
+				c.Unk(cfg.rule, cons, p.Pos(fn.Pos()), "relies on "+inv.String()+", which is not established by all writers")
+			}
+		}
+	}
 	type item struct {
 		F      *ssa.Function
 		k      string
@@ -465,6 +567,18 @@ func (fnn *fieldNeeds) resolve(p *Prog, c *Check, cfg safetyCfg, reach map[*ssa.
 			cons := fmt.Sprintf("%s@%s#%d", base, qname(s.fn), i+1)
 			pr := p.newSafetyProver(s.fn, cfg, fnn)
 			ok := provableFieldNonNil(pr, s.at, s.A, s.k)
+			if !ok && fnn.useInv {
+				if inv, has := fnn.guarded[s.fn][s.k]; has {
+					if g, mask, isG := guardOf(pr, s.at.Block(), s.A); isG && g == inv.G && mask == inv.Mask {
+						if p.checkFlagInv(nil, "", inv) {
+							c.OK(cfg.rule, cons, posOf(p, s.at), s.what+": behind a test of the flag; "+name+" != nil follows from the representation invariant "+inv.String())
+						} else {
+							c.Unk(cfg.rule, cons, posOf(p, s.at), s.what+": behind a test of the flag, but the representation invariant "+inv.String()+" is not established by all writers")
+						}
+						continue
+					}
+				}
+			}
 			if !ok && s.call == nil && fnn.assumed[s.fn][s.k] {
 				if _, isRecv := recvBase(p, s.fn, s.A); isRecv {
 					c.OK(cfg.rule, cons, posOf(p, s.at), s.what+": guaranteed by the caller's own requirement on "+name+" (resolved at its call sites)")
